@@ -256,9 +256,9 @@ META = {
     'rule': 'one case = one feasible path of an RR/WRR/DRR workload (sizes below and above the quantum, gaps symbolic)',
     'required_labels': ['c15.round-robin-choice', 'c15.deficit-range', 'c15.drr-fairness', 'c15.each-once'],
     'required_covers': ['nontrivial', 'restart-after-idle', 'fairness-evaluated'],
-    'bounds': {'quick': 'n=4 packets (bursts of 5-6), 2-3 classes, weights {1,1},{1,2},{2,1}; DRR sizes in [1,3200] (quantum 1500*w/min w); rate 8192',
+    'bounds': {'quick': 'n=4 packets (bursts of 5-6), 2-3 classes, weights {1,1},{1,2},{2,1}; DRR sizes in [1,3200] (quantum 1500*w/min w); rate 8192; weight tables without a unit weight; several flows per DRR class; late wake-ups (arrival after a departure of the same instant, credit forgotten at the emptying departure); 13-packet bursts; two-burst workloads of 6-8 packets',
                'thorough': 'n=5'},
-    'assumptions': ['arrival instants differ from each other (unless handed in as one burst) and from departure instants: the '
+    'assumptions': ['except in the late wake-up jobs: arrival instants differ from each other (unless handed in as one burst) and from departure instants: the '
                     'statement does not order a choice and an arrival of the same instant',
                     'after an idle period the round may restart at any backlogged class',
                     'DRR: "queue empties" is evaluated when the transmission ends (the in-service packet counts as queued)'],
